@@ -708,17 +708,40 @@ def run_name_rules(repo, rep, rr_cmp, rr_uncalled, scope):
         # the spelling of a name that was already matched - the comparison
         # is case-sensitive on purpose
         adjust = set()
-        for st in walk_no_nested(f.node):
-            if isinstance(st, ast.If) and isinstance(st.test, ast.Compare) \
-                    and len(st.test.ops) == 1 and \
-                    isinstance(st.test.ops[0], ast.NotEq) and \
-                    len(st.body) == 1 and not st.orelse and \
-                    isinstance(st.body[0], ast.Assign) and \
-                    isinstance(st.body[0].targets[0], ast.Attribute) and \
-                    st.body[0].targets[0].attr in ('name', 'classname') and \
-                    norm(st.body[0].value) in (
-                        norm(st.test.left), norm(st.test.comparators[0])):
-                adjust.add(id(st.test))
+        from .cfg import stmt_facts as _sfacts
+        _facts = None
+        for cmp_ in walk_no_nested(f.node):
+            if not (isinstance(cmp_, ast.Compare) and len(cmp_.ops) == 1 and
+                    isinstance(cmp_.ops[0], (ast.Eq, ast.NotEq))):
+                continue
+            if _facts is None:
+                _facts = _sfacts(f.node)
+            differs = isinstance(cmp_.ops[0], ast.NotEq)
+            sides = (norm(cmp_.left), norm(cmp_.comparators[0]))
+            under_diff, under_same = [], []
+            for st, (fs, _t) in _facts.items():
+                if isinstance(st, (ast.If, ast.For, ast.While, ast.Try,
+                                   ast.With)):
+                    continue
+                for t, pol in fs:
+                    if t is cmp_:
+                        (under_diff if pol == differs
+                         else under_same).append(st)
+            renames = [st for st in under_diff
+                       if isinstance(st, ast.Assign) and
+                       isinstance(st.targets[0], ast.Attribute) and
+                       st.targets[0].attr in ('name', 'classname') and
+                       norm(st.value) in sides]
+            only_assigns = all(isinstance(st, ast.Assign)
+                               for st in under_diff)
+            # the statements that run only when the spellings are equal do
+            # nothing (continue / pass); statements after an
+            # `if same: continue` are under_diff, not under_same
+            idle = all(isinstance(st, (ast.Continue, ast.Pass))
+                       for st in under_same
+                       if st not in under_diff)
+            if renames and only_assigns and idle:
+                adjust.add(id(cmp_))
         for node, l, op, r, lk, rk in comparisons(kinds, f):
             verdict, why = judge(op, lk, rk)
             if verdict == 'n/a':
